@@ -1,0 +1,45 @@
+package resource
+
+import "sync"
+
+// publishQueue makes writers publish their change events in the order their writes were committed,
+// without holding the resource lock while the events are being delivered.
+//
+// A writer takes a ticket while it still holds the resource's write lock, releases the lock, and then waits for
+// its ticket to come up before sending on the bus. The zero value is ready to use.
+type publishQueue struct {
+	mu      sync.Mutex
+	turn    sync.Cond // L is set lazily to &mu
+	next    uint64    // the next ticket to hand out
+	serving uint64    // the ticket whose holder may publish
+}
+
+// enqueue returns the caller's position in the publish order.
+// It must be called while holding the resource's write lock, right after the write has been committed.
+func (q *publishQueue) enqueue() uint64 {
+	q.mu.Lock()
+	defer q.mu.Unlock()
+	t := q.next
+	q.next++
+	return t
+}
+
+// publish waits until all earlier tickets have published, runs send, then lets the next ticket proceed.
+func (q *publishQueue) publish(ticket uint64, send func()) {
+	q.mu.Lock()
+	if q.turn.L == nil {
+		q.turn.L = &q.mu
+	}
+	for q.serving != ticket {
+		q.turn.Wait()
+	}
+	q.mu.Unlock()
+
+	defer func() {
+		q.mu.Lock()
+		q.serving++
+		q.turn.Broadcast()
+		q.mu.Unlock()
+	}()
+	send()
+}
